@@ -76,6 +76,30 @@ def translator_order(F):
             l, r_ = ("field", "left") in labs, ("field", "right") in labs
             sides.append("left" if l else "right" if r_ else "?")
         ops = [(p["op"], p["hook"]) for p in sorted([p for p in pushes if p["bb"] in arm], key=lambda p: TR.order_key(fn).get(p["bb"], 0))]
+        if ops and all(x[0] is None for x in ops):
+            # the opcodes are chosen first (`let (first, second) = match kind {..}`) and pushed afterwards from the variables: the
+            # opcodes built on this operator's slice of the arm, in order, are the ones pushed (as many as there are pushes at most)
+            def op_variant(operand, bb):
+                if operand is None:
+                    return None
+                d = TR.agg_def(fn, op_local(operand), bb) if op_local(operand) is not None else None
+                if d is None:
+                    return None
+                if d.get("adt") == TR.OP:
+                    return [d.get("variant")]
+                if d.get("adt") == "core::option::Option":
+                    if d.get("variant") == "None":
+                        return []
+                    return op_variant(d["ops"][0], bb) if d.get("ops") else None
+                return None
+            chosen = None
+            for b, j, pl, rv, m in fn.assigns():
+                if b in arm and rv["k"] == "agg" and rv.get("adt") == "(tuple)" and len(rv["ops"]) == 2:
+                    a0, a1 = op_variant(rv["ops"][0], b), op_variant(rv["ops"][1], b)
+                    if a0 is not None and a1 is not None and a0:
+                        chosen = a0 + a1
+            if chosen is not None and len(chosen) <= len(ops):
+                ops = [(x, None) for x in chosen]
         out[v] = (sides, ops, min(arm) if arm else None)
     return out, fn
 
@@ -412,9 +436,20 @@ def r2(F):
         traits = sorted(traits)
         ok = traits == [trait]
         r.inst("Op::%s" % op, hf.where(), ok, "%s -> %s -> core::ops::%s" % (op, "/".join(dict.fromkeys(via)) or "itself", trait) if ok else "Op::%s performs %s" % (op, traits))
+    CMP_FN = {"gt": "Gt", "lt": "Lt", "ge": "Ge", "le": "Le"}
     for op, want in C.items():
         hf = handler_of(op)
-        bins = sorted({rv["op"] for b, j, pl, rv, m in hf.assigns() if rv["k"] == "bin" and rv["op"] in ("Gt", "Lt", "Ge", "Le", "Eq", "Ne") and rv["ty"] in ("i64", "f64")})
+        bins = {rv["op"] for b, j, pl, rv, m in hf.assigns() if rv["k"] == "bin" and rv["op"] in ("Gt", "Lt", "Ge", "Le", "Eq", "Ne") and rv["ty"] in ("i64", "f64")}
+        # the comparison handed to a shared helper as a function item (`i64::gt`, `f64::gt` = PartialOrd::gt)
+        items = [a for b, t in hf.calls() for a in t["args"]] + [a for b, j, pl, rv, m in hf.assigns() for a in (rv.get("ops") or [])]
+        for a in items:
+            fnm = str(a.get("fn", ""))
+            last = fnm.split("::")[-1]
+            full = str(a.get("full", fnm))
+            if last in CMP_FN and ("PartialOrd" in fnm or "cmp" in fnm) and ("i64" in full or "f64" in full):
+                bins.add(CMP_FN[last])
+        need(bins, "the comparison behind %s was not found (not in its body, not handed on as a function item)" % hf.name)
+        bins = sorted(bins)
         ok = bins == [want]
         r.inst("Op::%s" % op, hf.where(), ok, "%s compares with %s" % (op, want) if ok else "Op::%s compares with %s" % (op, bins))
     hf = handler_of("Not")
